@@ -1717,11 +1717,24 @@ func TestReplay(t *testing.T) {
 		t.Skip()
 	}
 	var c struct {
-		Mod   *modSpec `json:"module"`
-		Fault fault    `json:"fault"`
+		Mod   *modSpec   `json:"module"`
+		Fault fault      `json:"fault"`
+		Multi *multiCase `json:"multi"`
 	}
 	if _, err := evid.LoadReplay(p, &c); err != nil {
 		t.Fatal(err)
+	}
+	if c.Fault.Kind == "multi" && c.Multi != nil {
+		// schedule-dependent: repeat for more rounds than the search did
+		msg, infra := runMulti(c.Multi, 10*c.Multi.Rounds)
+		if infra != nil {
+			t.Fatalf("harness: %v", infra)
+		}
+		if msg != "" {
+			evid.Violation("replay", map[string]any{"fault": map[string]any{"kind": "multi"}, "multi": c.Multi}, "%s", msg)
+			t.Fatal(msg)
+		}
+		return
 	}
 	if c.Mod == nil {
 		t.Fatal("replay file has no module")
